@@ -24,13 +24,16 @@ import (
 	"io"
 	"net"
 	"net/http"
+	"os"
 	"strings"
 	"sync"
+	"sync/atomic"
 	"testing"
 	"time"
 
 	"github.com/megaease/easegress/pkg/context"
 	"github.com/megaease/easegress/pkg/logger"
+	"github.com/megaease/easegress/pkg/protocols/httpprot"
 	"github.com/megaease/easegress/pkg/supervisor"
 	"pgregory.net/rapid"
 )
@@ -39,9 +42,37 @@ func init() { logger.InitNop() }
 
 const vfC17SrvWait = 30 * time.Second
 
-type vfC17NoMapper struct{}
+// vfC17Backend is the traffic handler behind the server's only rule. Its answer carries a token
+// that is unique to the case: a response with the token proves that the connection reached THIS
+// HTTPServer (and not some other process that owns the port), using exported API only.
+type vfC17Backend struct{ token string }
 
-func (vfC17NoMapper) GetHandler(name string) (context.Handler, bool) { return nil, false }
+func (b *vfC17Backend) Handle(ctx *context.Context) string {
+	resp, _ := httpprot.NewResponse(nil)
+	resp.SetStatusCode(200)
+	resp.HTTPHeader().Set("X-Vf-Token", b.token)
+	ctx.SetResponse(context.DefaultNamespace, resp)
+	return ""
+}
+
+func (b *vfC17Backend) GetHandler(name string) (context.Handler, bool) { return b, name == "vfc17be" }
+
+var vfC17SrvCases int64
+
+var errVfC17Foreign = fmt.Errorf("vf: response without this case's token (another server owns the port)")
+
+// vfC17SrvState is the state the HTTPServer reports through its exported Status ("nil", "running",
+// "failed", "closed").
+func vfC17SrvState(hs *HTTPServer) string {
+	st := hs.Status()
+	if st == nil {
+		return "?"
+	}
+	if s, ok := st.ObjectStatus.(*Status); ok && s != nil {
+		return fmt.Sprint(s.State)
+	}
+	return "?"
+}
 
 type vfC17SrvClient struct {
 	id     int
@@ -52,6 +83,7 @@ type vfC17SrvClient struct {
 	dead   string // the server ended an established connection: how it looked
 	cmd    chan struct{}
 	got    int // responses received
+	token  string
 }
 
 type vfC17SrvRig struct {
@@ -72,7 +104,7 @@ func (r *vfC17SrvRig) logf(format string, args ...interface{}) {
 }
 
 func vfC17SrvYAML(port, maxConn, cacheSize int) string {
-	return fmt.Sprintf("kind: HTTPServer\nname: vfc17\nport: %d\nkeepAlive: true\nkeepAliveTimeout: 600s\nhttps: false\nmaxConnections: %d\ncacheSize: %d\nrules: []\n", port, maxConn, cacheSize)
+	return fmt.Sprintf("kind: HTTPServer\nname: vfc17\nport: %d\nkeepAlive: true\nkeepAliveTimeout: 600s\nhttps: false\nmaxConnections: %d\ncacheSize: %d\nrules:\n- paths:\n  - pathPrefix: /\n    backend: vfc17be\n", port, maxConn, cacheSize)
 }
 
 // vfC17SrvDial dials with retries: on a machine where other processes churn through the ephemeral
@@ -115,6 +147,9 @@ func (c *vfC17SrvClient) exchange() error {
 	}
 	io.Copy(io.Discard, resp.Body)
 	resp.Body.Close()
+	if resp.Header.Get("X-Vf-Token") != c.token {
+		return errVfC17Foreign
+	}
 	return nil
 }
 
@@ -153,6 +188,8 @@ func TestVerifC17HTTPServerObject(t *testing.T) {
 		portSeed := rapid.IntRange(0, 21999).Draw(rt, "portSeed") // not part of the case: only where the server listens
 
 		// ---- start a real HTTPServer
+		token := fmt.Sprintf("vf-%d-%d", os.Getpid(), atomic.AddInt64(&vfC17SrvCases, 1))
+		backend := &vfC17Backend{token: token}
 		var hs *HTTPServer
 		var port int
 		// Port acquisition. HTTPServer binds the port itself, so a port can only be proposed, and on this
@@ -174,24 +211,38 @@ func TestVerifC17HTTPServerObject(t *testing.T) {
 				rt.Fatalf("VF-INCONCLUSIVE spec rejected: %v", err)
 			}
 			h := &HTTPServer{}
-			h.Init(ss, vfC17NoMapper{})
-			// startServer reports stateRunning BEFORE it listens, stateFailed when the port was taken
-			// meanwhile, and stores r.limitListener once the listener exists. The latter is the only
-			// definitive "our listener is up" signal (plain read of a field the fsm goroutine writes;
-			// this target is not built with -race; the connections dialled afterwards synchronise).
+			h.Init(ss, backend)
+			// The server reports "running" BEFORE it listens and "failed" when the port was taken
+			// meanwhile. It is up when a throw-away connection is answered WITH THIS CASE'S TOKEN:
+			// a purely behavioural signal (exported Status + what comes back over the socket).
 			deadline := time.Now().Add(vfC17SrvWait)
 			up := false
-			for !up && time.Now().Before(deadline) && h.runtime.getState() != stateFailed {
-				if h.runtime.limitListener != nil {
-					up = true
+			for !up && time.Now().Before(deadline) {
+				st := vfC17SrvState(h)
+				if st == "failed" {
 					break
+				}
+				if st == "running" {
+					if pc, err := net.DialTimeout("tcp", fmt.Sprintf("127.0.0.1:%d", p), time.Second); err == nil {
+						probe := &vfC17SrvClient{conn: pc, br: bufio.NewReader(pc), token: token}
+						pc.SetDeadline(time.Now().Add(10 * time.Second))
+						err := probe.exchange()
+						if tc, ok := pc.(*net.TCPConn); ok {
+							tc.SetLinger(0)
+						}
+						pc.Close()
+						if err == nil {
+							up = true
+							break
+						}
+					}
 				}
 				time.Sleep(200 * time.Microsecond)
 			}
 			if up {
 				hs, port = h, p
 			} else {
-				bindErrs = append(bindErrs, fmt.Sprintf("%d: state=%v err=%v", p, h.runtime.getState(), h.runtime.getError()))
+				bindErrs = append(bindErrs, fmt.Sprintf("%d: state=%s", p, vfC17SrvState(h)))
 				h.Close() // port in use: next candidate
 			}
 		}
@@ -204,6 +255,7 @@ func TestVerifC17HTTPServerObject(t *testing.T) {
 		var clients []*vfC17SrvClient
 		var cwg sync.WaitGroup
 		inconclusive := ""
+		foreign := false // a response without the token: the port is not (only) ours
 		curCap, curCache, maxCap := cap0, 0, cap0
 
 		closeClient := func(c *vfC17SrvClient) {
@@ -239,7 +291,7 @@ func TestVerifC17HTTPServerObject(t *testing.T) {
 					inconclusive = "dial failed (after retries): " + err.Error()
 					return
 				}
-				c := &vfC17SrvClient{id: len(clients), conn: conn, br: bufio.NewReader(conn), cmd: make(chan struct{}, 4)}
+				c := &vfC17SrvClient{id: len(clients), conn: conn, br: bufio.NewReader(conn), cmd: make(chan struct{}, 4), token: token}
 				clients = append(clients, c)
 				r.mu.Lock()
 				r.logf("dial c%d", c.id)
@@ -252,6 +304,16 @@ func TestVerifC17HTTPServerObject(t *testing.T) {
 						err := c.exchange()
 						r.mu.Lock()
 						if c.closed {
+							r.mu.Unlock()
+							return
+						}
+						if err == errVfC17Foreign {
+							c.dead = err.Error()
+							if c.served {
+								r.k--
+							}
+							foreign = true
+							r.cond.Broadcast()
 							r.mu.Unlock()
 							return
 						}
@@ -405,7 +467,7 @@ func TestVerifC17HTTPServerObject(t *testing.T) {
 					shrankBelow = true
 				}
 				next := &HTTPServer{}
-				next.Inherit(ss, hs, vfC17NoMapper{})
+				next.Inherit(ss, hs, backend)
 				hs = next
 				curCap, curCache = newCap, newCache
 				pingAll()
@@ -449,6 +511,7 @@ func TestVerifC17HTTPServerObject(t *testing.T) {
 		viols := append([][2]string(nil), r.viols...)
 		hist := strings.Join(r.hist, "; ")
 		peak, reloads := r.peak, r.reloads
+		foreignSeen := foreign
 		r.mu.Unlock()
 
 		vf.Class(fmt.Sprintf("httpserver maxConnections0=%d", cap0), fmt.Sprintf("httpserver peak-answered-open=%d", peak))
@@ -470,6 +533,9 @@ func TestVerifC17HTTPServerObject(t *testing.T) {
 		vf.Case(heldBack || (reloads > 0 && peak >= 1), "httpserver "+script, func() interface{} {
 			return map[string]interface{}{"wiring": "HTTPServer.Init/Inherit on a loopback port", "script": script, "history": hist}
 		})
+		if foreignSeen {
+			rt.Fatalf("VF-INCONCLUSIVE a client was answered without this case's token: another process serves the port\nscript: %s\nhistory: %s", script, hist)
+		}
 		for _, v := range viols {
 			if vf.Violation(rt, v[0], "%s\n[HTTPServer object] script: %s\nhistory: %s", v[1], script, hist) {
 				return
@@ -478,5 +544,6 @@ func TestVerifC17HTTPServerObject(t *testing.T) {
 		if inconclusive != "" {
 			rt.Fatalf("VF-INCONCLUSIVE %s\nscript: %s\nhistory: %s", inconclusive, script, hist)
 		}
+
 	})
 }
